@@ -143,7 +143,7 @@ fn call_int(args: &[Object]) -> Result<Object, Error> {
         Type::Float => {
             let value = unsafe { args[0].as_f64_unchecked() };
             // `as` saturates (and maps NaN to 0), so reject what does not fit before converting
-            if !(value > MIN_INT as f64 - 1.0 && value < MAX_INT as f64 + 1.0) {
+            if !(value >= MIN_INT as f64 && value < MAX_INT as f64 + 1.0) {
                 return Err(Error::ArgumentError(format!(
                     "kan {value} niet converteren naar een integer"
                 )));
